@@ -326,6 +326,28 @@ func c14Deviations(r *mon.Run, c *c14comp, kss *kssState, t *kssTranscript) {
 					}
 				}
 			}},
+			dev{fmt.Sprintf("commitment[%d] + k*N of its key (same residue)", i), func(q *gabi.KeyshareResponseRequest[string], _ *gabi.KeyshareCommitmentRequest, keys map[string]*gabikeys.PublicKey) {
+				e := &q.UserChallengeInput[i]
+				n := bi(0)
+				for _, k := range keys {
+					n = k.N
+				}
+				if e.KeyID != nil && keys[*e.KeyID] != nil {
+					n = keys[*e.KeyID].N
+				}
+				e.Commitment = add(e.Commitment, mul(n, bi(int64(1+i))))
+			}},
+			dev{fmt.Sprintf("value[%d] + N of its key (same residue)", i), func(q *gabi.KeyshareResponseRequest[string], _ *gabi.KeyshareCommitmentRequest, keys map[string]*gabikeys.PublicKey) {
+				e := &q.UserChallengeInput[i]
+				n := bi(0)
+				for _, k := range keys {
+					n = k.N
+				}
+				if e.KeyID != nil && keys[*e.KeyID] != nil {
+					n = keys[*e.KeyID].N
+				}
+				e.Value = add(e.Value, n)
+			}},
 			dev{fmt.Sprintf("entry[%d] dropped", i), func(q *gabi.KeyshareResponseRequest[string], _ *gabi.KeyshareCommitmentRequest, _ map[string]*gabikeys.PublicKey) {
 				q.UserChallengeInput = append(q.UserChallengeInput[:i:i], q.UserChallengeInput[i+1:]...)
 			}},
